@@ -25,7 +25,17 @@ REQUIRED = [P + n for n in (
     "mmx_over_eq_sse2", "in_over_lane", "mmx_in_over_eq_sse2", "pix_add_multiply_lane_eq_spec", "pix_add_multiply_pixel_eq",
     "unpack_565_to_8888_eq_convert", "pack_565_eq_convert", "pack_565_2x128_lane_eq_convert", "mmx_expand565_eq_convert", "mmx_pack_565_eq_convert",
     "sse2_bilinear_eq_bilinear_interpolation", "ssse3_bilinear_weights",
+)] + ["Pixman.Props.C02Kernels." + n for n in (
+    # vector early-out tests and shortcut = generic
+    "is_opaque_iff", "is_zero_iff", "is_transparent_iff", "overPixel_opaque", "overPixel_zero", "over_pixel_shortcut_eq_generic",
+    "expand_pixel_8", "inOverPixel_full", "inOverPixel_none", "over_8888_8_8888_shortcut_eq_generic", "over_u_shortcut_eq_generic",
+    "pack_2x128_128_saturation", "over_rev_non_pre_eq", "mmx_expand_4xpacked565_eq_convert", "mmx_pack_4xpacked565_eq_convert",
+    # bilinear: bridge to the packed 64-bit C code, whole SSE2 / SSSE3 pixels
+    "bilinear_interpolation_eq_channels", "sse2_bilinear_pixel_eq", "ssse3_vertical_eq", "ssse3_bilinear_pixel_eq",
+)] + ["Pixman.Props.C02Cover." + n for n in (
+    "packedLerpExact", "packed_lerp_eq_bilinear_interpolation", "fast_bilinear_cover_eq",
 )]
+EXTRA_MODULES = ["Pixman.Props.C02Kernels", "Pixman.Props.C02Cover"]
 
 CONFIGS = [("default", ""), ("no-ssse3", "ssse3"), ("no-ssse3-sse2", "ssse3 sse2"), ("fast+general", "ssse3 sse2 mmx"),
            ("general-only", "fast mmx sse2 ssse3"), ("no-wholeops", "wholeops"), ("no-wholeops-no-fast", "wholeops fast")]
@@ -404,7 +414,7 @@ def simd_stream(ctx, name, gen_cmd, env=None):
 
 
 def run(ctx):
-    broken = ctx.lean_obligations("Pixman.Props.C02", REQUIRED)
+    broken = ctx.lean_obligations("Pixman.Props.C02", REQUIRED, extra_modules=EXTRA_MODULES)
     quick = ctx.tier == "quick"
     b = ctx.build_pixman("plain")
     exe = ctx.cc("crossimpl", ["crossimpl.c"], b)
@@ -462,7 +472,7 @@ def run(ctx):
                     ctx.violation({"kind": "lookup-live", "lines": [y for y in extra if y.startswith("LIVE-MISMATCH")][:5], "env": {"PIXMAN_DISABLE": dis_env}},
                                   signature=f"lookup-live|{cname}", what="cached lookup on the live chain is not the table walk: " + "; ".join(y for y in extra if y.startswith("LIVE-MISMATCH"))[:500], tag="lookup")
     # 4. K: the real static-inline kernels of pixman-sse2.c / pixman-mmx.c / pixman-ssse3.c vs the Lean lane model
-    nk = 60000 if quick else 600000
+    nk = 70000 if quick else 700000
     kn, kdis, _ = simd_stream(ctx, "kernels", [kexe, "gen", ctx.seed, nk])
     khist = collections.Counter()
     kf = ctx.scratch / "kernels" / "ops.txt"
